@@ -270,16 +270,21 @@ ProgramToks(defs, cs, tv, sty) ==
 BfGaps  == {"cnt", "op", "opnd", "ent", "arr", "end"}
 HdrGaps == {"prolog", "meta", "cs.cnt", "cs.op", "cs.pair", "cs.ent", "cs.end", "trailer", "eof"}
 
-\* gap i of a token sequence is self-delimited
-SelfDelim(toks, i) == toks[i].e \/ i = Len(toks) \/ toks[i + 1].b
-\* the separator written in gap i: the style's where it applies and is legal there, else the default
-GapAtoms(toks, i, sty) ==
-    IF sty.k = "gap" /\ sty.a = toks[i].g /\ (sty.s # <<>> \/ SelfDelim(toks, i)) THEN sty.s ELSE toks[i].d
+\* One pass over the tokens (TLC does not cache LET definitions: no indexing into a recomputed sequence).  The gap
+\* after token p is self-delimited when p ends or the next token begins with a delimiter, or at the end of the
+\* program; it gets the style's separator where the style applies and is legal there, else the default.
+GapSep(p, sd, sty) == IF sty.k = "gap" /\ sty.a = p.g /\ (sty.s # <<>> \/ sd) THEN sty.s ELSE p.d
+NoTok == Tok("", FALSE, FALSE, "", "", <<>>)
+\* FoldGaps(f, init, toks, sty): fold f(acc, token, separator atoms, self-delimited) over all gaps
+FoldGaps(f(_, _, _, _), init, toks, sty) ==
+    LET r == FoldLeft(LAMBDA acc, t : IF acc.p.g = "" THEN [v |-> acc.v, p |-> t]
+                                     ELSE LET sd == acc.p.e \/ t.b IN [v |-> f(acc.v, acc.p, GapSep(acc.p, sd, sty), sd), p |-> t],
+                      [v |-> init, p |-> NoTok], toks)
+    IN IF r.p.g = "" THEN r.v ELSE f(r.v, r.p, GapSep(r.p, TRUE, sty), TRUE)
 
 Program(defs, cs, tv, sty) ==
-    LET toks == ProgramToks(defs, cs, tv, sty) IN
-    (IF tv.head = 2 THEN "%!PS-Adobe-3.0 Resource-CMap\n" ELSE "")
-    \o FoldLeft(LAMBDA s, i : s \o toks[i].t \o SepText(GapAtoms(toks, i, sty)), "", [i \in 1..Len(toks) |-> i])
+    FoldGaps(LAMBDA txt, p, as, sd : txt \o p.t \o SepText(as),
+             IF tv.head = 2 THEN "%!PS-Adobe-3.0 Resource-CMap\n" ELSE "", ProgramToks(defs, cs, tv, sty), sty)
 
 \* ---- declarative: which styles are inside the domain, and how a style is called
 GapStyleLegal(sty) == \A a \in SeqSet(sty.s) : a \in WsAtoms \cup {"cmt"}
@@ -322,20 +327,21 @@ BlankSet(gdev) == BlankAtoms \cup (IF gdev.g4 THEN {} ELSE FfNulAtoms)
 CombAccepts(gdev, c, as) ==
     LET set == IF c \in {"s0", "s1"} THEN BlankSet(gdev) ELSE BlankSet(gdev) \cup EolAtoms \cup {"cmt"}
     IN (c \in {"s0", "m0"} \/ as # <<>>) /\ SeqSet(as) \subseteq set
-EffComb(gdev, toks, i) ==
-    LET strict == IF toks[i].g \in BfGaps THEN gdev.g2 ELSE gdev.g6
-    IN IF strict THEN toks[i].c ELSE IF SelfDelim(toks, i) THEN "m0" ELSE "m1"
-ImplHexOK(gdev, sty, effect) ==
-    \/ sty.k # "hex" \/ ~effect
-    \/ ~gdev.g3                                             \* repaired: white space anywhere in the string
-    \/ /\ sty.a = "tgt" /\ sty.b \in {"unit", "trail"}      \* terminated(hex_u16, multispace0)
-       /\ SeqSet(sty.s) \subseteq BlankSet(gdev) \cup EolAtoms
+EffComb(gdev, p, sd) ==
+    LET strict == IF p.g \in BfGaps THEN gdev.g2 ELSE gdev.g6
+    IN IF strict THEN p.c ELSE IF sd THEN "m0" ELSE "m1"
+ImplHexOK(gdev, defs, cs, tv, sty) ==
+    IF sty.k # "hex" \/ ~gdev.g3 THEN TRUE                 \* repaired: white space anywhere in the string
+    ELSE IF Program(defs, cs, tv, sty) = Program(defs, cs, tv, Canon) THEN TRUE      \* the position does not occur
+    ELSE /\ sty.a = "tgt" /\ sty.b \in {"unit", "trail"}    \* terminated(hex_u16, multispace0)
+         /\ SeqSet(sty.s) \subseteq BlankSet(gdev) \cup EolAtoms
 ImplParses(gdev, defs, cs, tv, sty) ==
-    LET toks == ProgramToks(defs, cs, tv, sty) IN
-    /\ \A i \in 1..Len(toks) : CombAccepts(gdev, EffComb(gdev, toks, i), GapAtoms(toks, i, sty))
-    /\ ImplHexOK(gdev, sty, Program(defs, cs, tv, sty) # Program(defs, cs, tv, Canon))
     /\ (sty.k = "empty" => ~gdev.g5)
     /\ (sty.k = "head" /\ sty.a \in ExtraKeyHeads => ~gdev.g7)
+    /\ ImplHexOK(gdev, defs, cs, tv, sty)
+    /\ (sty.k = "gap" =>       \* the default separators are taken by every combinator
+          FoldGaps(LAMBDA ok, p, as, sd : ok /\ CombAccepts(gdev, EffComb(gdev, p, sd), as),
+                   TRUE, ProgramToks(defs, cs, tv, sty), sty))
 \* Dictionary::get_font_encoding: match self.get(b"Encoding").and_then(Object::as_name)
 ImplUsesToUnicode(gdev, form) ==
     IF gdev.f1 THEN form \in IdentityForms \cup DictForms        \* Identity-H/V arm, and the Err arm (absent, not a name)
